@@ -834,6 +834,92 @@ def run_classes(ctx, rng):
                     cls.__name__, Fnc, fn2, Xic, xi2, m), case2, key="C07:class:refill-%s" % method)
 
 
+def _make_alg(cls, data, fs, nxseg, Sy, f):
+    from pyoma2.setup import SingleSetup
+
+    ss = SingleSetup(data.copy(), fs=fs)
+    alg = cls(name="a", nxseg=nxseg, method_SD="per")
+    ss.add_algorithms(alg)
+    ss.run_by_name("a")
+    assert alg.result.Sy.shape == Sy.shape and np.allclose(alg.result.freq, f, rtol=1e-12, atol=0)
+    alg.result.Sy = Sy.astype(complex)
+    return ss, alg
+
+
+def oracle_class_sequence(ctx, seq):
+    """Histories of mpe calls on ONE EFDD / FSDD object (exact Sy injected): a call that omits DF1, DF2, cm, MAClim, sppk,
+    npmax asks for the documented defaults (0.1, 1.0, 1, 0.85, 3, 20) whatever was passed before: it must equal the
+    default-argument result of a fresh object (1e-12) and meet the envelope.  steps: list of keyword dicts, {} = defaults."""
+    from pyoma2.algorithms import EFDD, FSDD
+
+    spec = seq["spec"]
+    fs, nxseg, fn, xi = spec["fs"], spec["nxseg"], spec["fn"], spec["xi"]
+    phi = np.array(spec["phi"], float)
+    # the library defaults DF1 = 0.1 Hz, DF2 = 1.0 Hz must themselves be inside the property's quantifier
+    always = dict(seq.get("always", {}))  # keywords passed in EVERY call (DF1/DF2 where the default band is outside the quantifier)
+    assert in_envelope(fs, nxseg, fn, xi, always.get("DF2", 1.0)) and abs(spec["sel"] - fn) < always.get("DF1", 0.1), spec
+    f, Sy, _, _ = build_sy(fs, nxseg, fn, xi, phi, spec["eps_rel"], spec["gain"])
+    data = np.random.default_rng(12345).standard_normal((nxseg + 64, len(phi)))
+    for cls in (EFDD, FSDD):
+        if cls.__name__ not in seq.get("classes", ("EFDD", "FSDD")):
+            continue
+        base = dict(kind="class-sequence", cls=cls.__name__, spec=spec, always=always)
+        try:
+            ss0, fresh = _make_alg(cls, data, fs, nxseg, Sy, f)
+            ss0.mpe("a", sel_freq=[spec["sel"]], **always)
+            ref = (np.array(fresh.result.Fn, float), np.array(fresh.result.Xi, float), np.array(fresh.result.Phi))
+        except Exception as e:  # noqa: BLE001
+            ctx.fail("oracle", "%s.mpe(sel_freq) with default arguments raised %s inside the property's envelope" % (cls.__name__, type(e).__name__),
+                     base, key="C07:class-seq:raises")
+            continue
+        for steps in seq["sequences"]:
+            ss, alg = _make_alg(cls, data, fs, nxseg, Sy, f)
+            for i, kw in enumerate(steps):
+                case = dict(base, steps=steps[: i + 1], step=i)
+                ctx.count(case, nontrivial=i > 0)
+                ctx.hist("oracle class sequence", "%s step %d %s" % (cls.__name__, i, "defaults" if not kw else "explicit"))
+                try:
+                    ss.mpe("a", sel_freq=[spec["sel"]], **dict(always, **kw))
+                    Fn, Xi, Phi = np.array(alg.result.Fn, float), np.array(alg.result.Xi, float), np.array(alg.result.Phi)
+                except Exception as e:  # noqa: BLE001
+                    if not kw:
+                        ctx.fail("oracle", "%s.mpe with default arguments raised %s after the calls %r on the same object" % (
+                            cls.__name__, type(e).__name__, steps[:i]), case, key="C07:class-seq:raises")
+                    continue
+                if kw:
+                    continue  # explicit non-default parameters: legal, outside the "default sppk/npmax/MAClim" clause
+                m = mac(Phi[:, 0], phi)
+                efn, exi = abs(Fn[0] - fn) / fn, abs(Xi[0] - xi) / xi
+                if not (m >= 0.999 and efn <= 0.025 and exi <= 0.15):
+                    ctx.fail("oracle", "%s.mpe(sel_freq) with default arguments after the calls %r on the same object: fn %.6g (true %.6g, error %.2f %%), "
+                             "xi %.5g (true %.5g, error %.1f %%), MAC %.5f" % (cls.__name__, steps[:i], Fn[0], fn, 100 * efn, Xi[0], xi, 100 * exi, m),
+                             case, key="C07:class-seq:envelope-%s" % cls.__name__)
+                if not (Fn.shape == ref[0].shape and np.allclose(Fn, ref[0], rtol=1e-12, atol=0) and np.allclose(Xi, ref[1], rtol=1e-12, atol=0)
+                        and np.allclose(Phi, ref[2], rtol=1e-12, atol=1e-15)):
+                    ctx.fail("oracle", "%s.mpe(sel_freq) with default arguments after the calls %r gives fn %.12g, xi %.12g; a fresh object gives fn %.12g, "
+                             "xi %.12g (true %.6g, %.4g)" % (cls.__name__, steps[:i], Fn[0], Xi[0], ref[0][0], ref[1][0], fn, xi), case,
+                             key="C07:class-seq:sticky-%s" % cls.__name__)
+
+
+ND_A = dict(sppk=0, npmax=2)
+ND_B = dict(DF1=0.3, DF2=0.7, cm=2, MAClim=0.5, sppk=1, npmax=8)
+ND_C = dict(sppk=6, npmax=30, MAClim=0.99, DF2=2.5)
+
+
+def fixed_class_sequences(thorough):
+    """Deterministic call histories on one algorithm object (both tiers)."""
+    S1 = dict(kind="envelope", fs=50.0, nxseg=2048, fn=3.1, xi=0.02, phi=[1.0, -0.5, 0.25], eps_rel=1e-10, gain=1.0, sel=3.12)
+    S2 = dict(kind="envelope", fs=100.0, nxseg=4096, fn=11.9, xi=0.03, phi=[0.0, 1.0, -0.5, 0.75], eps_rel=1e-9, gain=1e-3, sel=11.95)
+    nd = dict(cm=2, MAClim=0.5, sppk=1, npmax=8)
+    out = [dict(spec=S1, sequences=[[ND_A, {}, {}], [{}, ND_B, {}]]),
+           dict(spec=S2, always=dict(DF1=0.7, DF2=3.0), sequences=[[nd, ND_A, {}], [{}, {}, dict(sppk=6, npmax=30, MAClim=0.99), {}]])]
+    if thorough:
+        S3 = dict(kind="envelope", fs=20.0, nxseg=2600, fn=1.3, xi=0.05, phi=[1.0, 1.0], eps_rel=1e-11, gain=1e4, sel=1.28)
+        out += [dict(spec=S3, sequences=[[ND_C, {}, ND_A, {}, {}], [ND_A, ND_B, ND_C, {}]]),
+                dict(spec=S1, sequences=[[ND_B, {}], [ND_C, {}], [ND_A, ND_A, {}]])]
+    return out
+
+
 # ----------------------------------------------------------------------------------------------------------------------
 def run(ctx):
     rng = ctx.np_rng
@@ -861,6 +947,8 @@ def run(ctx):
             oracle_multipick(ctx, spec)
         elif spec["kind"] == "intpick":
             oracle_intpick(ctx, spec)
+        elif spec["kind"] == "class-sequence":
+            oracle_class_sequence(ctx, spec)
         else:
             oracle_case(ctx, spec, methods=tuple(spec.get("methods", ("EFDD", "FSDD"))))
     # ---- histories on one array object, sampling rates over many decades (both tiers)
@@ -889,8 +977,11 @@ def run(ctx):
         ctx.hist("oracle corner", (spec["nxseg"], spec["end"], spec["xi"]))
         oracle_case(ctx, spec)
     # ---- oracle sweep over the envelope
-    for k in range(ctx.n(14, 200)):
+    for k in range(ctx.n(10, 200)):
         oracle_case(ctx, gen_envelope(rng, big=not ctx.quick() or k % 7 == 0))
+    # ---- call histories on one EFDD / FSDD object (both tiers)
+    for q in fixed_class_sequences(not ctx.quick()):
+        oracle_class_sequence(ctx, q)
     run_bell(ctx, rng)
     run_decay(ctx, rng)
     run_classes(ctx, rng)
